@@ -196,6 +196,34 @@ def reserved_paths(cont, model, cfg, ctx):
     return r
 
 
+@check("link_values")
+def link_values(cont, model, cfg, ctx):
+    """Links (soft/hard/external) would be an alias into the bookkeeping: assignment must be refused, always."""
+    import h5py
+
+    mc = cont.mc
+    before = _raw_fingerprint(cont)
+    vals = [
+        ("SoftLink", lambda: h5py.SoftLink("/metador_container")),
+        ("SoftLink-meta", lambda: h5py.SoftLink(cfg["paths"][0] + "/metador_meta_")),
+        ("ExternalLink", lambda: h5py.ExternalLink("other.h5", "/metador_container")),
+        ("HardLink", lambda: h5py.HardLink()),
+    ]
+    for nm, mk in vals:
+        try:
+            mc["zz_alias"] = mk()
+            ok = True
+        except env.StepTimeout:
+            raise
+        except Exception:
+            ok = False
+        if ok:
+            return {"kind": "link-accepted", "what": f"assigning a {nm} was accepted (alias into the container possible)", "sig": {"value": nm.split("-")[0]}}
+    if _raw_fingerprint(cont) != before:
+        return {"kind": "link-refused-with-effect", "what": "refused link assignments changed the container"}
+    return None
+
+
 @check("unsupported_attrs")
 def unsupported_attrs(cont, model, cfg, ctx):
     """Public attributes of the raw object that are not part of the supported protocol must be refused."""
@@ -225,7 +253,7 @@ def unsupported_attrs(cont, model, cfg, ctx):
 
 
 def make_cfg(seed, max_dev):
-    cfg = c06.make_cfg("c08", seed, max_dev=max_dev, checks=("user_view", "reserved_paths", "unsupported_attrs"), schemas=["vt.aa", "vt.bb"])
+    cfg = c06.make_cfg("c08", seed, max_dev=max_dev, checks=("user_view", "reserved_paths", "link_values", "unsupported_attrs"), schemas=["vt.aa", "vt.bb"])
     G, GD, E, H, GF = cfg["paths"]
     cfg["ops"] = cfg["ops"][:-2] + [["sa", G, "k"], ["sa", GD, "k"], ["sa", "/", "k"], ["da", "/", "k"], ["mkgrp", H], ["mkds", GF], ["R"], ["B"]]
     return cfg
